@@ -228,7 +228,7 @@ fn plan(property: &str, tier: &str) -> Vec<(&'static str, usize)> {
         // refused requests in every reachable state
         "C13" => {
             if quick {
-                vec![("names", 4), ("edit", 4), ("full", 2)]
+                vec![("full", 3), ("names", 5), ("edit", 4)]
             } else {
                 vec![("names", 6), ("edit", 5), ("full", 3), ("full3", 3)]
             }
